@@ -193,4 +193,14 @@ def shadowTrace (second : String) : List String :=
   "stale-binary-used c17/w/t/a.c dep=include-shadowed-by:c17/w/t/s.h"
 #guard judge (shadowCase ["file /c17/w/t/s.h 00", "mtime /c17/w/t/s.h 80"]) (shadowTrace "lb c17/w/t/a.c stale") == []
 
+/-! the reference compile (`reloadf`): a program loaded from its binary is compared with what the CURRENT sources compile
+    to, not with an older compile -/
+def refCase : List String := setup ++ [rl, "reloadf c17/w/t/a c17/w/t/b", rl]
+def refBlock (a : List String) : List String := ["begin 2"] ++ a ++ dumpB ++ ["R f:%61 \"f-0\"", "end 2"]
+#guard judge refCase (["restarted 50"] ++ block1 ++ refBlock dumpA1 ++ block2 dumpA2 "R f:%61 \"f-0\"") == []
+#guard has (judge refCase (["restarted 50"] ++ block1 ++ refBlock (repl dumpA1 "D c17/w/t/a co abc" "D c17/w/t/a co xyz") ++
+  block2 dumpA2 "R f:%61 \"f-0\"")) "program-differs c17/w/t/a"
+#guard has (judge refCase (["restarted 50"] ++ block1 ++ ["begin 2"] ++ dumpA1 ++ dumpB ++ ["R f:%61 \"f-9\"", "end 2"] ++
+  block2 dumpA2 "R f:%61 \"f-0\"")) "string-case-unreachable"
+
 end NV.C17.SpecTests
